@@ -247,7 +247,8 @@ def check_pool_by_value(ctx, rep, rule):
             for c in r['calls']:
                 if c['callee'].startswith('object::Object::') or c['callee'] in ('vm::VM::get_local',):
                     continue
-                hit = [a for a in c['args'] if pooled(a)]
+                # the pooled value itself is handed over (not something computed from it: its tag, a comparison of it)
+                hit = [a for a in c['args'] if pooled(a) and re.fullmatch(r'&?_\d+(?:\.\*|\.f\d+)*\[operand#\d+\]', str(a).strip())]
                 if hit:
                     leaks.append('handed to %s' % c['callee'].split('::')[-1])
             if any(pooled(c['args']) for c in r['calls']) or any(pooled(pv) for pv in (r.get('pushed') or [])):
